@@ -678,6 +678,91 @@ def _first_index_is_zero(t):
     return isinstance(first, ast.Constant) and first.value == 0
 
 
+def rule_raw_broadcast(ctx):
+    r = RuleResult('C11.raw-broadcast', 'operator overloads never combine the whole coefficient array with the raw array operand under plain NumPy '
+                                        'broadcasting (`self.data * rhs`): broadcasting aligns trailing axes, so an operand with as many axes as the '
+                                        'coefficient array (or one less) lines up with the direction / coefficient axes and mixes directions. Accepted: '
+                                        'the scalar branch, or a guard that bounds the operand\'s ndim by the element ndim')
+    m = ctx.model
+    # in-place forms are left out: an operand with more axes than the polynomial is not broadcastable into it (outside the properties' domain)
+    names = list(BINOPS) + ['__radd__', '__rsub__', '__rmul__', '__rtruediv__', '__pow__', '__rpow__']
+    n = 0
+    for name in names:
+        fi = m.lookup_method('UTPM', name)
+        if fi is None or len(fi.params) < 2:
+            continue
+        me, operand = fi.params[0], fi.params[1]
+
+        def facts_ok(stack):
+            for t, br in stack:
+                neg = False
+                while isinstance(t, ast.UnaryOp) and isinstance(t.op, ast.Not):
+                    t, neg = t.operand, not neg
+                truth = br != neg
+                if truth and norm(t) in ('numpy.isscalar(%s)' % operand, 'numpy.ndim(%s) == 0' % operand):
+                    return True
+                if truth:
+                    for c in ast.walk(t):
+                        if isinstance(c, ast.Compare) and len(c.ops) == 1 and isinstance(c.ops[0], (ast.Lt, ast.LtE)):
+                            l, rr = norm(c.left), norm(c.comparators[0])
+                            if l in ('%s.ndim' % operand, 'numpy.ndim(%s)' % operand, 'len(%s.shape)' % operand) and \
+                                    ('%s.ndim' % me in rr or '%s.data.ndim - 2' % me in rr or 'len(%s.shape)' % me in rr):
+                                if isinstance(c.ops[0], ast.LtE) or '- 1' in rr or '+' not in rr:
+                                    return True
+            return False
+
+        def visit(body, stack):
+            stack = list(stack)
+            for st in body:
+                if isinstance(st, ast.If):
+                    visit(st.body, stack + [(st.test, True)])
+                    visit(st.orelse, stack + [(st.test, False)])
+                    if st.body and isinstance(st.body[-1], (ast.Return, ast.Raise)) and not st.orelse:
+                        stack.append((st.test, False))
+                    for e in ast.walk(st.test):
+                        check(e, stack)
+                    continue
+                for attr in ('body', 'orelse', 'finalbody'):
+                    sub = getattr(st, attr, None)
+                    if isinstance(sub, list) and sub and isinstance(sub[0], ast.stmt):
+                        visit(sub, stack)
+                for e in ast.walk(st):
+                    if isinstance(e, ast.stmt) and e is not st:
+                        continue
+                    check(e, stack)
+
+        seen = set()
+
+        def check(e, stack):
+            nonlocal n
+            if id(e) in seen:
+                return
+            pair = None
+            if isinstance(e, ast.BinOp) and isinstance(e.op, (ast.Mult, ast.Div, ast.Add, ast.Sub)):
+                pair = (e.left, e.right)
+            if isinstance(e, ast.AugAssign) and isinstance(e.op, (ast.Mult, ast.Div, ast.Add, ast.Sub)):
+                pair = (e.target, e.value)
+            if pair is None:
+                return
+            txt = [norm(x) for x in pair]
+            whole = ('%s.data' % me, '%s.data[...]' % me)
+            if not (any(t in whole for t in txt) and operand in txt):
+                return
+            seen.add(id(e))
+            n += 1
+            if facts_ok(stack):
+                r.ok(construct='%s:%s' % (name, norm(e)[:50]), sample='UTPM.%s: `%s` under a scalar / ndim guard' % (name, norm(e)[:50]))
+            else:
+                r.bad(Finding('C11.raw-broadcast', _f(fi), norm(e)[:80], 'UTPM.%s combines the whole coefficient array with the raw operand `%s` under NumPy '
+                                                                         'broadcasting (`%s`): an operand whose leading axes have the extent of the direction or '
+                                                                         'coefficient axis is aligned with them, so directions receive each other\'s factors'
+                              % (name, operand, norm(e)[:60]), fi.file, getattr(e, 'lineno', fi.lineno)))
+        visit(fi.node.body, [])
+        r.ok(construct='scanned:' + name)
+    r.floor = 8
+    return r
+
+
 def rule_kernel_dtype(ctx):
     r = RuleResult('C02.dtype-kernel', 'a kernel with two coefficient operands that computes into a temporary and copies it to `out` allocates the '
                                        'temporary like `out` (the caller promotes the dtype of out over both operands), not like one operand')
@@ -693,10 +778,14 @@ def rule_kernel_dtype(ctx):
         if not mandatory:
             continue        # with out=None the kernel returns its own buffer; nothing is copied into a promoted array
         copies = [st for st in walk_no_nested(fi.node) if isinstance(st, ast.Assign) and len(st.targets) == 1
-                  and isinstance(st.targets[0], ast.Subscript) and norm(st.targets[0].value) == 'out' and isinstance(st.value, ast.Subscript)
-                  and isinstance(st.value.value, ast.Name)]
+                  and isinstance(st.targets[0], ast.Subscript) and norm(st.targets[0].value) == 'out'
+                  and (isinstance(st.value, ast.Name) or (isinstance(st.value, ast.Subscript) and isinstance(st.value.value, ast.Name)))]
+        copies += [st for st in walk_no_nested(fi.node) if isinstance(st, ast.Expr) and isinstance(st.value, ast.Call)
+                   and dotted_name(st.value.func) == 'numpy.copyto' and len(st.value.args) >= 2 and norm(st.value.args[0]) == 'out'
+                   and isinstance(st.value.args[1], ast.Name)]
         for cp in copies:
-            tmp = cp.value.value.id
+            src_ = cp.value.args[1] if isinstance(cp, ast.Expr) else cp.value
+            tmp = src_.id if isinstance(src_, ast.Name) else src_.value.id
             allocs = [st for st in walk_no_nested(fi.node) if isinstance(st, ast.Assign) and len(st.targets) == 1
                       and isinstance(st.targets[0], ast.Name) and st.targets[0].id == tmp and isinstance(st.value, ast.Call)
                       and (dotted_name(st.value.func) or '').split('.')[-1] in ('empty_like', 'zeros_like', 'zeros', 'empty')]
